@@ -229,7 +229,7 @@ def worker(cfg):
     res = {'cfg': cfg, 'key': json.dumps(cfg, sort_keys=True)}
     out = sx.run_symbolic(execute, cfg, [], rounds=0, seed=driver.seed_of(), max_paths=2000)
     for v in out['violations']:
-        v['sig'].update({k: cfg.get(k) for k in ('kind', 'p', 'prefix')}); v['pid'] = PID
+        v['sig'].update({k: cfg.get(k) for k in ('kind', 'p', 'prefix')}); v['pid'] = cfg.get('pid_', PID)
         v['sig']['case'] = classify(cfg, v)
     res.update({k: out[k] for k in ('paths', 'obligations', 'discharged', 'queries', 'violations', 'inconclusive', 'out_of_bound')})
     res['solver_s'] = out['solver_s']
